@@ -38,6 +38,8 @@ def parts():
 
 
 def actions():
+    if VARIANT == "four":
+        return ["read", "write-new", "clear", "write-restore"]
     if VARIANT is not None:
         return ["read", "write-new", "write-replace", "clear", "write-restore"]
     return ACTIONS if hlib.TIER == "thorough" else ACTIONS[:6]
@@ -208,7 +210,7 @@ def plan(tier):
     if tier == "quick":
         return [{"fn": "prog", "nparts": 4 * 12, "timeout": 300}]  # class x first token (2 objects x 6 actions)
     return [{"fn": "prog", "nparts": len(PARTS) * 16, "timeout": 900},  # class x first token (2 objects x 8 actions)
-            {"fn": "prog4", "nparts": 2 * 10, "timeout": 900},  # one dict class per strategy x first token (2 objects x 5 actions)
+            {"fn": "prog4", "nparts": 2 * 8, "timeout": 900},  # one dict class per strategy x first token (2 objects x 4 actions)
             {"fn": "prog3o", "nparts": 2 * 15, "timeout": 900}]  # one dict class per strategy x first token (3 objects x 5 actions)
 
 
@@ -232,6 +234,6 @@ FUNCTIONS = [
     "synced_collections.buffers.memory_buffered_collection:SharedMemoryFileBufferedCollection._load_from_buffer",
 ]
 BOUNDS = {"quick": {"classes": 8, "objects_on_one_file": 2, "contexts": CTX, "pre_histories": ["none", "A-loaded-before", "B-used-buffered-before"], "classes_quick": "BufferedJSON and MemoryBufferedJSON dict/list (the attribute-access variants share the buffer code)", "program": "3 tokens over {A,B} x " + str(ACTIONS[:6])},
-          "thorough": {"prog": "8 classes, 3 tokens over {A,B} x " + str(ACTIONS), "prog4": "BufferedJSONDict and MemoryBufferedJSONDict, 4 tokens over {A,B} x [read, write-new, write-replace, clear, write-restore]", "prog3o": "the same two classes, three objects, 3 tokens over {A,B,C} x the same five actions"}}
+          "thorough": {"prog": "8 classes, 3 tokens over {A,B} x " + str(ACTIONS), "prog4": "BufferedJSONDict and MemoryBufferedJSONDict, 4 tokens over {A,B} x [read, write-new, clear, write-restore]", "prog3o": "the same two classes, three objects, 3 tokens over {A,B,C} x the same five actions"}}
 ASSUMPTIONS = ["finite selector space explored exhaustively through the solver's path tree; decided programs run the real code natively with concrete values", "environment models of vf/env_model.py; default capacity"]
 OUTSIDE = ["more than 3 objects, more than 3 (4) tokens", "objects in *different* buffering states (documented as unsupported by the library)"]
